@@ -103,9 +103,9 @@ class GroupAdditivityScheme(Scheme):
             other_descriptors = scheme_data['other_descriptors']
         if 'smiles_based_descriptors' in scheme_data:
             for i in range(0, len(scheme_data['smiles_based_descriptors'])):
-                scheme_data['smiles_based_descriptors'][i]['smarts'] = \
-                    Chem.MolFromSmarts(scheme_data['smiles_based_descriptors']
-                                       [i]['smarts'])
+                scheme_data['smiles_based_descriptors'][i]['smiles'] = \
+                    Chem.MolFromSmiles(scheme_data['smiles_based_descriptors']
+                                       [i]['smiles'])
             smiles_based_descriptors = scheme_data['smiles_based_descriptors']
         if 'smarts_based_descriptors' in scheme_data:
             for i in range(0, len(scheme_data['smarts_based_descriptors'])):
